@@ -95,7 +95,7 @@ func c11partition(c *Ctx) {
 	n := 0
 	for i := 0; i < st.NumFields(); i++ {
 		f := st.Field(i)
-		if f.Name() == "writeErrMu" || f.Name() == "mu" {
+		if n := c.P.OldFieldName(f); n == "writeErrMu" || n == "mu" {
 			continue // the locks themselves
 		}
 		var conflict []string
@@ -113,12 +113,12 @@ func c11partition(c *Ctx) {
 			continue
 		}
 		n++
-		ok := ctorOnly(f) || guarded[f.Name()]
+		ok := ctorOnly(f) || guarded[c.P.OldFieldName(f)]
 		why := "shared between " + strings.Join(conflict, "; ") + ": "
 		switch {
 		case ctorOnly(f):
 			why += "all stores are in constructors"
-		case guarded[f.Name()]:
+		case guarded[c.P.OldFieldName(f)]:
 			why += "always accessed under writeErrMu (C11.mutex-guarded)"
 		default:
 			var ws []string
